@@ -2073,7 +2073,7 @@ Print Assumptions C17_rest_independent.
    second document is what remains. *)
 Theorem C17_sequence : forall tr t old v,
   unfold_value t old (flatten tr) = UDone v ->
-  forall evs2 fuel2, (S (S (length (flat_map expand (flatten tr)))) + ftsize t <= fuel2)%nat ->
+  forall evs2 fuel2, (S (S (2 * length (flat_map expand (flatten tr)))) + ftsize t <= fuel2)%nat ->
     uf fuel2 t old (flat_map expand (flatten tr ++ evs2)) = UOk v (flat_map expand evs2).
 Proof.
   intros tr t old v H evs2 fuel2 Hf. unfold unfold_value in H.
